@@ -1,5 +1,6 @@
 """Program model over bcfacts output: functions, records, enums, constants; expression utilities
 (simplification, canonical rendering, traversal, pattern matching)."""
+import copy
 import os
 import re
 
@@ -355,6 +356,113 @@ class Function:
         return "<fn %s %s>" % (self.q, self.where)
 
 
+def _only_leaves_by_return_or_throw(s):
+    """Statement s always ends in return/throw and contains no break/continue that could bind to an outer loop."""
+    if not isinstance(s, dict):
+        return False
+    if any(x.get("k") in ("break", "continue", "goto") for x in stmts(s)):
+        return False
+    k = s.get("k")
+    if k in ("ret", "throw"):
+        return True
+    if k == "seq":
+        items = [x for x in s.get("s", []) if isinstance(x, dict)]
+        return bool(items) and _only_leaves_by_return_or_throw(items[-1])
+    return False
+
+
+def _subst_params(node, mapping):
+    if is_expr(node):
+        if node[0] == "param" and len(node) > 1 and node[1] in mapping:
+            return copy.deepcopy(mapping[node[1]])
+        return [node[0]] + [_subst_params(x, mapping) if isinstance(x, (list, dict)) else x for x in node[1:]]
+    if isinstance(node, dict):
+        return {k: (_subst_params(v, mapping) if isinstance(v, (list, dict)) else v) for k, v in node.items()}
+    if isinstance(node, list):
+        return [_subst_params(x, mapping) if isinstance(x, (list, dict)) else x for x in node]
+    return node
+
+
+def _replace_returns(node, value, by):
+    """Copy of statement tree `node` with every `return <value>` replaced by a copy of statement `by`."""
+    if isinstance(node, dict):
+        if node.get("k") == "ret" and is_expr(node.get("v")) and node["v"][0] == "bool" and bool(node["v"][1]) == value:
+            return copy.deepcopy(by)
+        return {k: (_replace_returns(v, value, by) if isinstance(v, (dict, list)) and not is_expr(v) else v) for k, v in node.items()}
+    if isinstance(node, list):
+        return [_replace_returns(x, value, by) if isinstance(x, (dict, list)) and not is_expr(x) else x for x in node]
+    return node
+
+
+def inline_predicate_ifs(fn, program):
+    """`const auto pred = [&](T x) { for (..) if (hit) return true; return false; };  if (pred(a)) return R;`
+    is rewritten to the lambda's body with `return true` replaced by `return R;` (and the dual `if (!all(a)) ..` for a
+    body ending in `return true`): a search loop moved into a local predicate lambda analyses like the inline loop.
+    Only when the branch leaves the function (return/throw), there is no else, every exit of the lambda is a bool
+    literal, the last statement is the opposite literal and the arguments are side-effect free names/members."""
+    if getattr(fn, "_pred_inlined", False) or not isinstance(fn.body, dict):
+        return fn
+    fn._pred_inlined = True
+
+    def lam_of(c):
+        neg = False
+        while is_expr(c) and c[0] in ("paren",):
+            c = c[1]
+        if is_expr(c) and c[0] == "u" and c[1] == "!" and len(c) > 2:
+            neg, c = True, c[2]
+            while is_expr(c) and c[0] in ("paren",):
+                c = c[1]
+        if is_expr(c) and c[0] == "opcall" and c[1] == "()" and isinstance(c[2], str) and "::lambda@" in c[2] and len(c) > 3 and is_expr(c[3]) and c[3][0] == "local":
+            return neg, c
+        return None, None
+
+    def pure(a):
+        return is_expr(a) and all(x[0] in ("local", "param", ".", "this", "u", "int", "bool", "enum", "cast", "mcall") for x in subexprs(a)) and \
+            not any(x[0] == "mcall" and not str(x[1]).rsplit("::", 1)[-1] in ("get", "operator*", "operator->") for x in subexprs(a)) and \
+            not any(x[0] == "u" and x[1] not in ("*", "&") for x in subexprs(a))
+
+    def rewrite(s):
+        if not isinstance(s, dict):
+            return s
+        for k in ("t", "e", "b", "init"):
+            if isinstance(s.get(k), dict):
+                s[k] = rewrite(s[k])
+        for k in ("s", "h"):
+            if isinstance(s.get(k), list):
+                s[k] = [rewrite(x) for x in s[k]]
+        if s.get("k") != "if" or s.get("e") is not None or isinstance(s.get("init"), dict) or s.get("var"):
+            return s
+        neg, call = lam_of(s.get("c"))
+        if call is None or not _only_leaves_by_return_or_throw(s.get("t")):
+            return s
+        lf = program.funcs.get(call[2], [])
+        if len(lf) != 1 or not isinstance(lf[0].body, dict) or lf[0].body.get("k") != "seq" or lf[0].d.get("goto"):
+            return s
+        lam = lf[0]
+        items = [x for x in lam.body.get("s", []) if isinstance(x, dict)]
+        if not items or items[-1].get("k") != "ret" or not (is_expr(items[-1].get("v")) and items[-1]["v"][0] == "bool"):
+            return s
+        last = bool(items[-1]["v"][1])
+        rets = [x for x in stmts(lam.body) if x.get("k") == "ret"]
+        if any(not (is_expr(r.get("v")) and r["v"][0] == "bool") for r in rets) or any(x.get("k") == "throw" for x in stmts(lam.body)):
+            return s
+        if any(bool(r["v"][1]) == last for r in rets if r is not items[-1]):
+            return s
+        fire = not neg          # the branch runs when the predicate is `fire`
+        if last == fire:
+            return s            # the branch would run on fall-through: not the search-loop shape
+        args = call_args(call)
+        if len(args) != len(lam.params) or not all(pure(a) for a in args):
+            return s
+        mapping = {p["n"]: a for p, a in zip(lam.params, args)}
+        body = _subst_params(copy.deepcopy(items[:-1]), mapping)
+        body = _replace_returns(body, fire, s["t"])
+        return {"k": "seq", "l": s.get("l"), "s": body, "inlined": call[2]}
+
+    fn.body = rewrite(fn.body)
+    return fn
+
+
 class Program:
     """Facts of a set of units, indexed by qualified name."""
 
@@ -395,7 +503,7 @@ class Program:
             self.consts.update(d.get("consts", {}))
 
     def fns(self, q):
-        return [f.simp() for f in self.funcs.get(q, [])]
+        return [inline_predicate_ifs(f.simp(), self) for f in self.funcs.get(q, [])]
 
     def fn(self, q, nparams=None, file=None, param_types=None):
         c = self.fns(q)
